@@ -327,6 +327,60 @@ def directed_part(ctx: vlib.Ctx):
                       "observed": obs, "expected": "ok:" + gen.py_src(v)}, {"kind": "roundtrip"})
 
 
+BASELINE_PRELUDE = ("from dataclasses import dataclass, field\nfrom datetime import date\nfrom typing import Generic, List, Optional, TypeVar\n"
+                    "from mashumaro import DataClassDictMixin\nfrom mashumaro.config import BaseConfig\nS = TypeVar('S')\nT = TypeVar('T')\n")
+
+
+def baseline_part(ctx: vlib.Ctx):
+    """round 7, directed and deterministic (consumes no randomness): three shapes on which the UNCHANGED library breaks the round trip
+    (known findings, each with controls that must pass):
+    (a) type variables re-ordered through inheritance: class B(A[S, T], Generic[T, S]) -- B[x, y] means T=x, S=y
+    (b) a generic class given an argument that mentions the SAME TypeVar object it binds: Box[List[T]] inside Generic[T], or the swap A[T, S]
+        of class A(Generic[S, T]) -- the substitution T -> List[T] / S -> T -> S is applied again to its own result (RecursionError)
+    (c) forbid_extra_keys with an init=False field: to_dict writes the field, from_dict rejects its key"""
+    from harness import gen
+    A = BASELINE_PRELUDE + "@dataclass\nclass A(Generic[S, T], DataClassDictMixin):\n    s: S\n    t: T\n"
+    BOX = BASELINE_PRELUDE + "@dataclass\nclass Box(Generic[T], DataClassDictMixin):\n    item: T\n"
+    scen = [
+        # (source, type expression, value sources, signature kind)
+        (A + "@dataclass\nclass B(A[S, T], Generic[S, T]):\n    pass\n@dataclass\nclass C(B[int, date]):\n    pass\n", "C", ["C(1, date(2020, 1, 2))"], "roundtrip"),
+        (A + "@dataclass\nclass B(A[S, T]):\n    pass\n@dataclass\nclass C(B[int, date]):\n    pass\n", "C", ["C(1, date(2020, 1, 2))"], "roundtrip"),
+        (A + "@dataclass\nclass B(A[T, S], Generic[S, T]):\n    u: S\n@dataclass\nclass C(B[int, date]):\n    pass\n", "C", ["C(date(2020, 1, 2), 1, 5)"], "generic-typevar-capture"),
+        (A + "@dataclass\nclass B(A[S, T], Generic[T, S]):\n    pass\n@dataclass\nclass C(B[date, int]):\n    pass\n", "C", ["C(1, date(2020, 1, 2))"], "generic-reordered-typevars"),
+        (A + "@dataclass\nclass B(A[S, T], Generic[T, S]):\n    pass\n", "B[date, int]", ["B(1, date(2020, 1, 2))"], "generic-reordered-typevars"),
+        (BOX + "@dataclass\nclass H(Generic[S], DataClassDictMixin):\n    b: Box[List[S]]\n", "H[int]", ["H(Box([1, 2]))"], "roundtrip"),
+        (BOX + "@dataclass\nclass H(Generic[T], DataClassDictMixin):\n    b: Box[T]\n", "H[int]", ["H(Box(1))"], "roundtrip"),
+        (BOX, "dataclass(__import__('types').new_class('H', (Generic[T], DataClassDictMixin), {}, lambda ns: ns.update(__annotations__={'b': Box[List[T]]})))", [], "generic-typevar-capture"),
+        (BASELINE_PRELUDE + "@dataclass\nclass F(DataClassDictMixin):\n    a: int\n    b: int = field(init=False, default=3)\n", "F", ["F(1)"], "roundtrip"),
+        (BASELINE_PRELUDE + "@dataclass\nclass F(DataClassDictMixin):\n    a: int\n    b: int = field(init=False, default=3)\n    class Config(BaseConfig):\n        forbid_extra_keys = True\n",
+         "F", ["F(1)"], "forbid-extra-keys-init-false"),
+    ]
+    from mashumaro.codecs.basic import BasicDecoder, BasicEncoder
+    for src, tsrc, vals, kind in scen:
+        ctx.count(("baseline", src, tsrc))
+        try:
+            ns = gen.build_module(src)
+            ty = eval(tsrc, dict(ns))
+            enc, dec = BasicEncoder(ty), BasicDecoder(ty)
+        except Exception as e:
+            ctx.fail(f"{tsrc} after {src.split('TypeVar')[-1][8:200]!r} cannot be built: {type(e).__name__}",
+                     {"entry": "codec_build", "source": src, "type": tsrc, "expected": "ok"}, {"kind": kind if kind != "roundtrip" else "codec-build"})
+            continue
+        for vs in vals:
+            v = eval(vs, dict(ns))
+            for entry, f in (("mixin_roundtrip", lambda: type(v).from_dict(v.to_dict())), ("codec_roundtrip", lambda: dec.decode(enc.encode(v)))):
+                try:
+                    back = f()
+                    ok = gen.same(back, v)
+                    obs = "ok:" + gen.py_src(back)
+                except Exception as e:
+                    ok = False
+                    obs = f"exc:{type(e).__name__}"
+                if not ok:
+                    ctx.fail(f"{tsrc}: {entry} of {vs} gives {obs[:200]}",
+                             {"entry": entry, "source": src, "type": tsrc, "input_src": vs, "observed": obs, "expected": "ok:" + gen.py_src(v)}, {"kind": kind})
+
+
 def run(ctx: vlib.Ctx):
     ctx.coverage["rule"] = ("timezone leaf: every whole-minute offset in (-24h,24h) (exhaustive, distinct = offsets); "
                             "general round trip: schemas from the shared grammar generator (depth<=4, nested/recursive/mixin dataclasses, "
@@ -344,6 +398,7 @@ def run(ctx: vlib.Ctx):
     omit_part(ctx)
     # round-7 part last (same reason)
     directed_part(ctx)
+    baseline_part(ctx)
 
 
 def replay(rep: dict) -> int:
@@ -364,8 +419,8 @@ def replay(rep: dict) -> int:
     if rep.get("entry") == "codec_build":
         from harness import gen
         from mashumaro.codecs.basic import BasicDecoder, BasicEncoder
-        ns = gen.build_module(rep["source"])
         try:
+            ns = gen.build_module(rep["source"])
             ty = eval(rep["type"], dict(ns))
             BasicEncoder(ty)
             BasicDecoder(ty)
